@@ -138,25 +138,36 @@ def main(argv=None):
         else:
             viol.setdefault(f.obligation, []).append(f)
     if undecided:
-        w = None
-        if spec.get('witness'):
-            try:
-                w = spec['witness'](pid, undecided, REPO)
-            except Exception as e:
-                w = {'error': repr(e)}
-        if w and w.get('found'):
-            for f in undecided:
-                f.message += ' [proof undecided (unconstrained std/closure result); decided by replaying a failing input on the real code]'
-                f.pre_witness = w
-                viol.setdefault(f.obligation, []).append(f)
-            fails = fails + undecided
-        else:
+        groups: Dict[str, List[Failure]] = {}
+        for f in undecided:
+            groups.setdefault(f.obligation, []).append(f)
+        open_obs = []
+        for ob, fl in groups.items():
+            w = None
+            if spec.get('witness'):
+                try:
+                    w = spec['witness'](pid, fl, REPO)      # per obligation: the input must violate THAT clause
+                except Exception as e:
+                    w = {'error': repr(e)}
+            if w and w.get('found'):
+                for f in fl:
+                    f.message += (' [the verifier could not process this function; decided by replaying a failing input on the real code]'
+                                  if f.message.startswith('not verifiable') else
+                                  ' [proof undecided (unconstrained std/closure result); decided by replaying a failing input on the real code]')
+                    f.pre_witness = w
+                    viol.setdefault(f.obligation, []).append(f)
+                fails = fails + fl
+            else:
+                open_obs.append(ob)
+        if open_obs and len(open_obs) == len(groups):
             class _U:
                 unit = undecided[0].unit
                 status = 'inconclusive'
                 reason = 'undecided obligations (function uses a std method / closure without contract, and no failing input was found on the real code): ' + \
-                         ', '.join(sorted({f.obligation for f in undecided}))
+                         ', '.join(sorted(open_obs))
             inconclusive.append(_U())
+        elif open_obs:
+            print(f'NOTE property={pid} also undecided, no failing input found for: ' + ', '.join(sorted(open_obs)))
     failed_obs = {f'{f.unit}:{f.obligation}' for f in fails}
     kf_obs = sorted({f'{f.unit}:{f.obligation}' for f, _ in known_hits} - {f'{x.unit}:{x.obligation}' for v in viol.values() for x in v})
     counted = [o for o in obligations if o not in kf_obs]
